@@ -1025,6 +1025,7 @@ func ruleS17_4(c *Ctx, id string) {
 				}
 			}
 			bound := ""
+			polOK := true
 			for _, br := range branches(init) {
 				if br.Cond.X == nil || br.Cond.Y == nil {
 					continue
@@ -1035,9 +1036,26 @@ func ruleS17_4(c *Ctx, id string) {
 				}
 				if lv.is(x) && (op == token.LSS || op == token.GEQ) {
 					bound = sym(&symCtx{}, y, Subst{}, 0)
+					// the body (what writes the inode) lies on the side where the counter is below the bound
+					cont := br.True
+					if op == token.GEQ {
+						cont = br.False
+					}
+					for _, b2 := range init.Blocks {
+						for _, in2 := range b2.Instrs {
+							if g := staticCallee(in2); g != nil && g.Name() == "WriteInode" {
+								if !(cont == b2 || cont.Dominates(b2)) {
+									polOK = false
+								}
+							}
+						}
+					}
 				}
 			}
-			okCover = adv && nb > 0 && initOK && bound == upper
+			okCover = adv && nb > 0 && initOK && bound == upper && polOK
+			if !polOK {
+				bound += " (the loop test is the wrong way round: the body does not run)"
+			}
 			why = fmt.Sprintf("loop bound %s, validInum accepts numbers below %s, starts low enough=%v, advances=%v", bound, upper, initOK, adv && nb > 0)
 		} else if upper == "" {
 			why = "upper bound of validInum not found"
@@ -1635,6 +1653,17 @@ func ruleS17_8(c *Ctx, id string) {
 				nf++
 				R.Analysed[FuncName(fn)] = true
 				R.Check(isFailStore(at) || MustBefore(fn, isFailStore)(at), id, fmt.Sprintf("simple.%s|false#%d has a failing status", name, nf), P.Pos(at.Pos()), "a store of a failing status lies on every path to this 'false'", "must-precede", "the helper says 'do not commit' without saying why: the reply keeps NFS3_OK, the zero value - the caller returns it and the client takes the request for done")
+			}
+			// a refusal decided is a refusal returned: the block that stores a failing status goes straight to
+			// 'return false' - with true the caller commits and overwrites the status with OK
+			ns := 0
+			for _, b := range fn.Blocks {
+				for _, in := range b.Instrs {
+					if isFailStore(in) {
+						ns++
+						R.Check(straightToBool(b, false), id, fmt.Sprintf("simple.%s|refusal#%d is returned", name, ns), P.Pos(in.Pos()), "the block that stores a failing status returns false", "straight to 'return false'", "the helper stores a failing status and then answers true (or goes on): its caller commits and stores NFS3_OK over it - a refused request is acknowledged")
+					}
+				}
 			}
 			for _, b := range fn.Blocks {
 				r, ok := b.Instrs[len(b.Instrs)-1].(*ssa.Return)
